@@ -15,5 +15,5 @@ def main (args : List String) : IO UInt32 := do
   let stdin ← IO.getStdin
   let stdout ← IO.getStdout
   match args with
-  | ["C20"] => loop stdin stdout (fun ws _ => C20.step ws); return 0
+  | ["C20"] => loop stdin stdout C20.step; return 0
   | _ => IO.eprintln "usage: driver <property> < trace"; return 2
